@@ -34,18 +34,21 @@ RULE = ('For each of the 4 writer/loader pairs (status.txt; output.txt+output.js
         'trailing blanks, trailing newline, non-ASCII, [section], tab/CR, quotes, empty) placed in every free-text field of '
         'the format (status: error description under all 4^4 keep/set/set-other/remove sequences; outputs: key-output '
         'name and file name; details: keys and cell text; instance: arguments, component and global variables, manifest '
-        'keys/values). FAULTS: for every update k=1..4 and EVERY entry of its recorded write log: a crash before the '
-        'entry and, for writes, after none/half/all-but-the-last byte of the data (unbuffered, so disk == what was '
-        'written; after the crash nothing else reaches the disk), and an I/O error raised by the entry (writes: after '
-        'none/half of the data) after which the code under test continues and the remaining updates are performed '
-        'cleanly. Each (target, history, judged update, fault) is one evaluation; it is non-trivial when a fault was '
-        'injected or the history contains an awkward string or has >=2 updates; distinct = distinct such tuples.')
+        'keys/values). FAULTS: for every update k=1..4, under BOTH file models (unbuffered: every write() of the writer '
+        'reaches the file at once and is a boundary; buffered: data stays in the process until flush()/close()/8 KiB, as '
+        'Python files really behave, so a rename before close is exposed) and for EVERY entry of the recorded write log '
+        '(open / write / flush / close / rename / remove): a crash before the entry and, for entries that move data, after '
+        'none/half/all-but-the-last byte of it (after the crash nothing else reaches the disk), and an I/O error raised '
+        'by the entry (data entries: after none/half of the data) after which the code under test continues and the '
+        'remaining updates are performed cleanly and judged. Each (target, history, judged update, file, fault, model) '
+        'is one evaluation; it is non-trivial when a fault was injected or the history contains an awkward string or '
+        'has >=2 updates; distinct = distinct such tuples.')
 ASSUMPTIONS = [
     'crash model: the process dies at a Python-level file operation; the kernel is assumed POSIX (rename atomic, data of '
     'completed write() calls visible to a later reader); no reordering of completed operations, no power-loss model',
-    'writes are made unbuffered by the interposer, so every write() call of the code under test is a crash point; with '
-    'the real buffered file object the same bytes reach the disk in larger units, i.e. the real crash points are a '
-    'subset of the enumerated ones when the target file itself is being written in place',
+    'two file models bracket the real buffered file object: unbuffered (every write() call is a crash point and the disk '
+    'holds every prefix of the data) and buffered (nothing reaches the disk before flush()/close() or 8 KiB); in the '
+    'buffered model data pending at a failed flush()/close() is lost (not retried)',
     'single fault per history; after an I/O error every later operation succeeds',
     'the statement is judged per file (each file is previous-or-new); no cross-file consistency is required',
     'a missing output.txt / output.json and an empty listing are the same logical value (no key-output produced yet)',
